@@ -393,3 +393,40 @@ Definition print_message (o : popts) (addr : str) (args : list av) (cols : Z) : 
       Some (if (Z.of_nat (length args) =? 0) then addr ++ [32] else t, w0 + w)
   | None => None
   end.
+
+(* ---- Spec: the values a slot list stands for (finite ranges expanded, the
+   filler the range conversion leaves behind dropped) --------------------------- *)
+Fixpoint map_opt {A B} (f : A -> option B) (l : list A) : option (list B) :=
+  match l with
+  | [] => Some []
+  | a :: r => match f a, map_opt f r with
+              | Some b, Some t => Some (b :: t)
+              | _, _ => None end
+  end.
+
+Fixpoint expand_f (fuel : nat) (l : list av) : option (list av) :=
+  match fuel with
+  | O => None
+  | S f =>
+      match l with
+      | [] => Some []
+      | VRep num hd :: r =>
+          if num <=? 0 then None else
+          if hd =? 0 then
+            let k := Z.to_nat (incsize r) in
+            match expand_f f (skipn k r) with
+            | Some t => Some (concat (repeat (firstn k r) (Z.to_nat num)) ++ t)
+            | None => None end
+          else
+            match r with
+            | delta :: start :: r' =>
+                match map_opt (fun j => range_arg delta start (Z.of_nat j)) (seq 0 (Z.to_nat num)),
+                      expand_f f r' with
+                | Some vs, Some t => Some (vs ++ t)
+                | _, _ => None end
+            | _ => None end
+      | VSpc _ :: r => expand_f f r
+      | v :: r => match expand_f f r with Some t => Some (v :: t) | None => None end
+      end
+  end.
+Definition expand (l : list av) : option (list av) := expand_f (S (length l)) l.
